@@ -127,6 +127,14 @@ public:
     auto deadline = Clock::now() + delay;
 
     std::lock_guard lock(_wheelMutex);
+
+    // Re-check under lock: drain()/stop() may have set _accepting=false and
+    // emptied the wheel between the lock-free check above and this point.
+    if (!_accepting.load(std::memory_order_relaxed))
+    {
+      return InvalidTimerId;
+    }
+
     auto* entry = allocEntry(); // alloc under _wheelMutex to prevent ABBA with _poolMutex
     entry->id = id;
     entry->callback = std::move(callback);
